@@ -48,8 +48,13 @@ def known_names() -> Dict[str, List[str]]:
 # N1 / N2
 
 class _Isinstance(ast.NodeTransformer):
+    def __init__(self, module_tuples: Optional[Dict[str, ast.Tuple]] = None):
+        self.module_tuples = module_tuples or {}
+
     def visit_Call(self, node):
         self.generic_visit(node)
+        if isinstance(node.func, ast.Name) and node.func.id == "isinstance" and len(node.args) == 2 and isinstance(node.args[1], ast.Name) and node.args[1].id in self.module_tuples:
+            node.args[1] = copy.deepcopy(self.module_tuples[node.args[1].id])  # a module-level tuple of classes, written out
         if isinstance(node.func, ast.Name) and node.func.id == "isinstance" and len(node.args) == 2 and isinstance(node.args[1], ast.Tuple) and len(node.args[1].elts) >= 2 and not node.keywords:
             x = node.args[0]
             if isinstance(x, (ast.Name, ast.Attribute, ast.Subscript)):  # re-evaluating x is free of effects
@@ -461,11 +466,12 @@ class Inliner:
     def _hoist_nested(self, st: ast.stmt, cls: Optional[str]) -> Optional[List[ast.stmt]]:
         """`x = A - helper(args)` -> `t = helper(args); x = A - t` when the helper call is the only call of the statement
         (so nothing that could interfere is evaluated before it)"""
-        if not isinstance(st, (ast.Assign, ast.AnnAssign, ast.AugAssign, ast.Return, ast.Expr)) or getattr(st, "value", None) is None:
+        is_if = isinstance(st, ast.If)
+        if not is_if and (not isinstance(st, (ast.Assign, ast.AnnAssign, ast.AugAssign, ast.Return, ast.Expr)) or getattr(st, "value", None) is None):
             return None
-        top = st.value
+        top = st.test if is_if else st.value
         calls = [n for n in ast.walk(top) if isinstance(n, ast.Call)]
-        cands = [c for c in calls if c is not top and (h := self._resolve(c, cls)) is not None and not (h.expr is not None and not h.locals) and not h.is_gen]
+        cands = [c for c in calls if (c is not top or is_if) and (h := self._resolve(c, cls)) is not None and not (h.expr is not None and not h.locals) and not h.is_gen]
         if len(cands) != 1:
             return None
         c = cands[0]
@@ -496,7 +502,10 @@ class Inliner:
                 return self.generic_visit(node)
 
         pre = ast.copy_location(ast.Assign(targets=[ast.Name(id=tmp, ctx=ast.Store())], value=c, lineno=st.lineno), st)
-        st.value = R().visit(top)
+        if is_if:
+            st.test = R().visit(top)
+        else:
+            st.value = R().visit(top)
         return [pre, st]
 
     def _inline_one(self, st: ast.stmt, cls: Optional[str]) -> Optional[List[ast.stmt]]:
@@ -872,8 +881,9 @@ def _fold_tagged_temps(fn):
             nxt = stmts[i + 1] if i + 1 < len(stmts) else None
             if nxt is not None and isinstance(st, ast.Assign) and len(st.targets) == 1 and isinstance(st.targets[0], ast.Name) and "__" in st.targets[0].id:
                 t = st.targets[0].id
-                if binds.get(t) == 1 and uses.get(t) == 1 and isinstance(nxt, (ast.Assign, ast.AnnAssign, ast.AugAssign, ast.Expr, ast.Return)) \
-                        and sum(1 for n in ast.walk(nxt) if isinstance(n, ast.Name) and n.id == t and isinstance(n.ctx, ast.Load)) == 1:
+                where = nxt.test if isinstance(nxt, ast.If) else nxt if isinstance(nxt, (ast.Assign, ast.AnnAssign, ast.AugAssign, ast.Expr, ast.Return)) else None
+                if binds.get(t) == 1 and uses.get(t) == 1 and where is not None \
+                        and sum(1 for n in ast.walk(where) if isinstance(n, ast.Name) and n.id == t and isinstance(n.ctx, ast.Load)) == 1:
                     val = st.value
 
                     class R(ast.NodeTransformer):
@@ -882,7 +892,10 @@ def _fold_tagged_temps(fn):
                                 return ast.copy_location(val, n)
                             return n
 
-                    stmts[i + 1] = R().visit(nxt)
+                    if isinstance(nxt, ast.If):
+                        nxt.test = R().visit(nxt.test)
+                    else:
+                        stmts[i + 1] = R().visit(nxt)
                     i += 1
                     continue
             out.append(st)
@@ -957,6 +970,11 @@ def _fold_stable_aliases(fn):
                     elif is_const(v) and not isinstance(v, (ast.Constant, ast.Name)):
                         folds[t] = v
                         continue
+                    elif isinstance(v, ast.Call) and isinstance(v.func, ast.Name) and v.func.id == "isinstance" and len(v.args) == 2 and isinstance(v.args[0], ast.Name) \
+                            and binds.get(v.args[0].id, 0) <= 1 and "__" in t:
+                        # a flag produced by inlining (`is_x__h1 = isinstance(obj, T)`): its uses test the same thing
+                        folds[t] = v
+                        continue
 
             keep.append(st)
         return keep
@@ -979,7 +997,15 @@ def _fold_stable_aliases(fn):
 
 
 def normalise_module(module_name: str, tree: ast.Module) -> ast.Module:
-    tree = _Isinstance().visit(tree)
+    mt: Dict[str, ast.Tuple] = {}
+    counts: Dict[str, int] = {}
+    for st in tree.body:
+        if isinstance(st, ast.Assign) and len(st.targets) == 1 and isinstance(st.targets[0], ast.Name):
+            counts[st.targets[0].id] = counts.get(st.targets[0].id, 0) + 1
+            if isinstance(st.value, ast.Tuple) and st.value.elts and all(isinstance(e, (ast.Name, ast.Attribute)) for e in st.value.elts):
+                mt[st.targets[0].id] = st.value
+    mt = {k: v for k, v in mt.items() if counts.get(k) == 1}
+    tree = _Isinstance(mt).visit(tree)
     _swap_negative_ifs(tree)
     inl = Inliner(module_name, tree)
     if inl.helpers:
